@@ -185,16 +185,17 @@ def is_pow2(n):
 
 
 def elf_loadable(data, e, ps, stack=None):
-    """what a kernel maps as the file says (the hypothesis `LoadableOK` of the theorem, written independently):
-    page-congruent offsets, filesz <= memsz, non-empty, file part inside the file, segments ascending and
-    disjoint, and a later segment's first page either lies behind the earlier segment or shows the same
-    file bytes where the earlier segment has no zero-filled part; the stack pages lie apart."""
+    """the hypothesis `LoadableOK` of the theorem, written independently: every PT_LOAD is accepted by the loader
+    (in-page offset of the address <= file offset — true of every page-congruent segment, and of unaligned ones),
+    filesz <= memsz, non-empty, file part inside the file; segments ascending and disjoint; a later segment's first
+    page either lies behind the earlier segment or shows the same file bytes where the earlier segment has no
+    zero-filled part; the stack pages lie apart."""
     if ps < 1:
         return False
     m = ps - 1
     L = [p for p in e.phdrs if p["type"] == PT_LOAD]
     for p in L:
-        if (p["offset"] & m) != (p["vaddr"] & m) or p["filesz"] > p["memsz"] or p["memsz"] == 0:
+        if (p["vaddr"] & m) > p["offset"] or p["filesz"] > p["memsz"] or p["memsz"] == 0:
             return False
         if p["offset"] + p["filesz"] > len(data):
             return False
@@ -217,10 +218,36 @@ def elf_loadable(data, e, ps, stack=None):
     return True
 
 
-def elf_facts(data, e, ptr, slots):
-    """the mapping the file declares. `slots`: [(addr, name)] bound relocation slots (or [])."""
+def elf_isolated(data, e, ps, stack=None):
+    """the PT_LOAD segments whose expected content is unambiguous from the file alone, whatever the rest of the
+    image looks like: a well-formed segment (filesz <= memsz, file part inside the file) whose byte range
+    [vaddr, vaddr+memsz) is touched by no *later* segment's page-rounded block and not by the stack pages.
+    (Earlier blocks do not matter: the segment's own block is written over them.)"""
+    m = ps - 1
+    L = [p for p in e.phdrs if p["type"] == PT_LOAD]
+    out = []
+    for i, s in enumerate(L):
+        if s["filesz"] > s["memsz"] or s["memsz"] == 0 or s["offset"] + s["filesz"] > len(data):
+            continue
+        lo, hi = s["vaddr"], s["vaddr"] + s["memsz"]
+        ok = True
+        for t in L[i + 1:]:
+            b0 = t["vaddr"] - (t["vaddr"] & m)
+            b1 = b0 + (t["vaddr"] & m) + max(t["filesz"], t["memsz"]) + m + 1
+            if b0 < hi and lo < b1:
+                ok = False
+        if stack is not None and stack[0] < hi and lo < stack[1]:
+            ok = False
+        if ok:
+            out.append(s)
+    return out
+
+
+def elf_facts(data, e, ptr, slots, only=None):
+    """the mapping the file declares. `slots`: [(addr, name)] bound relocation slots (or []);
+    `only`: restrict to these PT_LOAD segments."""
     F = []
-    for p in e.phdrs:
+    for p in (e.phdrs if only is None else only):
         if p["type"] != PT_LOAD:
             continue
         F.append(("bytes", p["vaddr"], data[p["offset"]:p["offset"] + p["filesz"]]))
